@@ -84,6 +84,12 @@ def main():
               'confirmed_by_me':conf,
               'detected_by':[{'check':c,'tier':t,'seed':1,'rule':r} for c,t,r in det],
               'status':'detected' if det else 'missed','remarks':note}
+        old=f'{d}/meta.json'
+        if os.path.exists(old):
+            try:
+                o=json.load(open(old))
+                if 'what_i_ran' in o: meta['what_i_ran']=o['what_i_ran']
+            except Exception: pass
         json.dump(meta,open(f'{d}/meta.json','w'),indent=1)
     print(len(T),'seeded changes written')
 main()
